@@ -35,6 +35,7 @@ type Writer struct {
 	err         error
 	scratch     [4]byte
 	wroteHeader bool
+	closed      bool // a Close has completed: the trailer must not be written again
 }
 
 // NewWriter creates a new Writer.
@@ -88,6 +89,7 @@ func (z *Writer) Reset(w io.Writer) {
 	z.err = nil
 	z.scratch = [4]byte{}
 	z.wroteHeader = false
+	z.closed = false
 }
 
 // writeHeader writes the ZLIB header.
@@ -182,6 +184,10 @@ func (z *Writer) Close() error {
 	if z.err != nil {
 		return z.err
 	}
+	if z.closed {
+		// repeated Close: nothing more to emit
+		return nil
+	}
 	z.err = z.compressor.Close()
 	if z.err != nil {
 		return z.err
@@ -190,5 +196,6 @@ func (z *Writer) Close() error {
 	// ZLIB (RFC 1950) is big-endian, unlike GZIP (RFC 1952).
 	binary.BigEndian.PutUint32(z.scratch[:], checksum)
 	_, z.err = z.w.Write(z.scratch[0:4])
+	z.closed = z.err == nil
 	return z.err
 }
